@@ -22,7 +22,7 @@ from snakeoil.strings import pluralism
 
 from ..ebuild import atom as atom_mod
 from ..ebuild.domain import domain as domain_cls
-from ..repository import multiplex
+from ..repository import filtered, multiplex
 from ..repository.util import SimpleTree, get_virtual_repos
 from ..restrictions import boolean, packages
 from ..util import parserestrict
@@ -420,7 +420,14 @@ def _dist_validate_args(parser, namespace):
     distdir = namespace.domain.distdir
     repo = namespace.repo
     if repo is None:
-        repo = multiplex.tree(*get_virtual_repos(namespace.domain.source_repos, False))
+        # look behind the visibility filter: a masked or keyworded out ebuild is
+        # still an ebuild in the tree, and its distfiles are still in use
+        repo = multiplex.tree(
+            *(
+                r.raw_repo if isinstance(r, filtered.tree) else r
+                for r in get_virtual_repos(namespace.domain.source_repos, False)
+            )
+        )
 
     all_dist_files = {os.path.basename(f) for f in listdir_files(distdir)}
     target_files = set()
